@@ -8,9 +8,12 @@ pid, k = sys.argv[1], sys.argv[2]
 checks = None
 if "--checks" in sys.argv:
     checks = sys.argv[sys.argv.index("--checks") + 1].split(",")
-wt = "/tmp/seed-%s" % pid
+rnd = 1
+if "--round" in sys.argv:
+    rnd = int(sys.argv[sys.argv.index("--round") + 1])
+wt = "/tmp/seed-%s" % pid if rnd == 1 else "/tmp/seed%d-%s" % (rnd, pid)
 sd = os.path.join(wt, "seed%s" % k)
-out = "/verif/seeded/%s-%s" % (pid, k)
+out = "/verif/seeded/%s-%s" % (pid, k if rnd == 1 else str(int(k) + 2 + 3 * (rnd - 2)))
 env = dict(os.environ, CARGO_TARGET_DIR=wt + "/target", CARGO_NET_OFFLINE="true")
 
 
@@ -20,7 +23,7 @@ def sh(cmd, **kw):
 
 
 def clean():
-    sh("git checkout -- . ; git clean -fdq -e seed1 -e seed2 -e target")
+    sh("git checkout -- . ; git clean -fdq -e seed1 -e seed2 -e seed3 -e target")
 
 
 res = {"property": pid, "seed": k}
